@@ -19,6 +19,7 @@ import (
 	"os"
 	"os/exec"
 	"path/filepath"
+	"regexp"
 	"runtime"
 	"sort"
 	"strconv"
@@ -607,6 +608,8 @@ func check(id, tier, repo string, writeEvidence bool) int {
 		m.infra = append(m.infra, "determinism sample worker failed")
 	}
 
+	m.infra = r.settleInProcessMismatches(bin, m.infra, timeout)
+
 	var raceM *merged
 	if raceRuns > 0 {
 		rbin, err := r.build(true)
@@ -616,6 +619,7 @@ func check(id, tier, repo string, writeEvidence bool) int {
 			fatal2("race build failed")
 		}
 		raceM = r.fanout(rbin, raceRuns, "race", r.raceEnv("race"), timeout)
+		raceM.infra = r.settleInProcessMismatches(rbin, raceM.infra, timeout)
 		m.infra = append(m.infra, raceM.infra...)
 		for k, v := range raceM.viol {
 			if _, ok := m.viol[k]; !ok {
@@ -792,6 +796,53 @@ func tagCounts(tags map[string]bool) map[string]int {
 		}
 		out[k]++
 	}
+	return out
+}
+
+var inProcRe = regexp.MustCompile(`^nondeterminism(?: across processes)?: run (\d+) `)
+
+// settleInProcessMismatches looks at what the workers' self-check reported. A
+// worker re-executes every k-th run in the same process and compares
+// fingerprints; a difference means either that the simulator is not
+// deterministic (infrastructure trouble) or that the tree under test keeps
+// state across the operations of one process (an intern table with statistics,
+// say), which is not the simulator's business. The two are told apart by
+// executing the run alone in two fresh processes: if those agree, the entries
+// become a note.
+func (r *runner) settleInProcessMismatches(bin string, infra []string, timeout time.Duration) []string {
+	var runs []int
+	for _, s := range infra {
+		if m := inProcRe.FindStringSubmatch(s); m != nil {
+			n, _ := strconv.Atoi(m[1])
+			runs = append(runs, n)
+		}
+	}
+	if len(runs) == 0 {
+		return infra
+	}
+	sort.Ints(runs)
+	if len(runs) > 3 {
+		runs = []int{runs[0], runs[len(runs)/2], runs[len(runs)-1]}
+	}
+	for _, n := range runs {
+		key := strconv.Itoa(n)
+		ta, tb := fmt.Sprintf("settle-a-%d", n), fmt.Sprintf("settle-b-%d", n)
+		a := r.fanoutOne(bin, n, n+1, ta, append([]string{"SIM_RECORD_FP_BELOW=2000000000"}, r.envFor(bin, ta)...), timeout)
+		b := r.fanoutOne(bin, n, n+1, tb, append([]string{"SIM_RECORD_FP_BELOW=2000000000"}, r.envFor(bin, tb)...), timeout)
+		if a == nil || b == nil || a.FPByRun[key] == "" || a.FPByRun[key] != b.FPByRun[key] {
+			return infra
+		}
+	}
+	var out []string
+	dropped := 0
+	for _, s := range infra {
+		if inProcRe.MatchString(s) {
+			dropped++
+			continue
+		}
+		out = append(out, s)
+	}
+	fmt.Fprintf(os.Stderr, "simcheck: note: %d runs give another fingerprint when re-executed inside the same worker process, but the same fingerprint in two fresh processes (runs %v checked): the tree under test keeps state across the operations of one process; the simulator is deterministic\n", dropped, runs)
 	return out
 }
 
